@@ -37,6 +37,10 @@ type C07Plan struct {
 	// BadOnce (legacy, checkpoint kind): the bad node accepts one connection at a time and is gone for good after its
 	// offence; nobody announces anything afterwards - the service must move on to the honest nodes by itself
 	BadOnce bool `json:"badOnce,omitempty"`
+	// HangUp (legacy, forbidden kind, ban 3 s): the forbidden header comes late in a long first reply and the bad node closes
+	// all its connections right after writing it, so its sender is gone when the service reaches the header; the host must
+	// be banned all the same (it reconnects / is redialled during the ban)
+	HangUp bool `json:"hangUp,omitempty"`
 	// StrictRedelivery (reproducer of an open finding only): a connection on which the contradicting header is delivered
 	// AGAIN (the service has it already) is expected to be closed as well
 	StrictRedelivery bool   `json:"strictRedelivery,omitempty"`
@@ -170,6 +174,7 @@ func runC07Once(p *C07Plan, long bool) (*stats.Case, error) {
 	// a forbidden header is rejected on every delivery (it is never stored); a checkpoint-contradicting header that is
 	// delivered again is skipped as a duplicate by both engines (open finding C07-checkpoint-contradiction-redelivered)
 	badNode.RedeliveryCounts = p.Kind == "forbidden" || p.StrictRedelivery
+	badNode.HangUpAfterOffence = p.HangUp
 	if p.Kind == "forbidden" && p.Delivery != "" {
 		fh := forbidden.Hash
 		badNode.Insert = func(reply []*wire.BlockHeader, _ int, _ int) ([]*wire.BlockHeader, bool) {
@@ -415,7 +420,7 @@ func runC07Once(p *C07Plan, long bool) (*stats.Case, error) {
 		}
 	}
 	cl := map[string]int64{"scenarios": 1, "kind_" + p.Kind: 1, "engine_" + p.Engine: 1, "offence_observed": b2i(sawOffence), "contradiction_redelivered_and_skipped_as_duplicate": int64(badNode.Redeliveries()), "ban_window_checked": b2i(banChecked),
-		"with_final_announcement": b2i(p.FinalAnn), "bad_first": b2i(p.BadFirst)}
+		"with_final_announcement": b2i(p.FinalAnn), "bad_first": b2i(p.BadFirst), "sender_hangs_up_before_the_forbidden_header_is_reached": b2i(p.HangUp && sawOffence)}
 	nt := sawOffence && (p.Offset > 0 || p.Kind == "checkpoint") && p.Honest >= 1
 	return &stats.Case{Sig: stats.Sig(fmt.Sprintf("%+v", *p)), Nontrivial: nt, Classes: cl, Sample: p}, nil
 }
@@ -454,6 +459,15 @@ func genC07(t *rapid.T) *C07Plan {
 			p.DisableCP = rapid.IntRange(0, 4).Draw(t, "dcp") == 0
 		}
 		p.Delivery = rapid.SampledFrom([]string{"", "", "skipParent", "beforeParent"}).Draw(t, "delivery")
+		if p.Engine == "legacy" && rapid.IntRange(0, 5).Draw(t, "hangup") == 0 {
+			p.HangUp = true
+			p.HonestLen = rapid.IntRange(250, 600).Draw(t, "hlen")
+			p.ForkAt = p.HonestLen - rapid.IntRange(4, 40).Draw(t, "hfork")
+			p.BadLen = rapid.IntRange(1, 3).Draw(t, "hbad")
+			p.Offset = rapid.IntRange(0, p.BadLen-1).Draw(t, "hoff")
+			p.Checkpoints = []int{rapid.IntRange(1, 20).Draw(t, "hcp")}
+			p.BadCap, p.BadFirst, p.BanMs, p.Delivery = 2000, true, 3000, ""
+		}
 	case "checkpoint":
 		c := rapid.IntRange(3, p.HonestLen-2).Draw(t, "cp")
 		p.Checkpoints = []int{c}
